@@ -115,7 +115,9 @@ func runWorkload(wl Workload) []Window {
 			p := plans[k%active]
 			var o SOp
 			var h *ctree.Leaf
-			switch r.Pick(45, 14, 12, 16, 3, 5, 5, 6) {
+			switch r.Pick(45, 14, 12, 16, 3, 5, 5, 6, 5) {
+			case 8:
+				o = SOp{K: []string{"walk", "walksorted"}[r.Intn(2)], P: []string{}}
 			case 7:
 				o = SOp{K: "queryerr", P: queryPaths[r.Intn(len(queryPaths))], V: int64(r.Intn(2))}
 			case 0:
